@@ -537,21 +537,29 @@ theorem inv_allocate {lo hi : Nat} {g : G} {st : St} (hI : Inv lo hi g st) {debu
 
 /-! ### `free_all_chunks` -/
 
+/-- A strengthening `J` of the invariant that freeing an allocated region preserves (the two loops of
+`free_all_chunks` are proved once, for every such `J`). -/
+structure FreeStable (lo hi : Nat) (debug : Bool) (J : G → St → Prop) : Prop where
+  inv : ∀ {g : G} {st : St}, J g st → Inv lo hi g st
+  free : ∀ {g : G} {st : St} {r : Reg} {st' : St} {n : Nat}, J g st → r ∈ g.regions →
+    freeNoLock debug st r.start = some (st', n) → J (g.free r.start) st'
+
 /-- First loop of `free_all_chunks(c)`: it frees the regions after `c` in `c`'s list. -/
-theorem freeAll_next_loop {lo hi c : Nat} {debug : Bool} : ∀ (fuel : Nat) {g : G} {st : St} (l1 l2 : List Nat),
-    Inv lo hi g st → (l1 ++ c :: l2) ∈ g.lists → l2.length ≤ fuel →
+theorem freeAll_next_loop {lo hi c : Nat} {debug : Bool} {J : G → St → Prop} (hJ : FreeStable lo hi debug J) : ∀ (fuel : Nat) {g : G} {st : St} (l1 l2 : List Nat),
+    J g st → (l1 ++ c :: l2) ∈ g.lists → l2.length ≤ fuel →
     ∃ st1, freeAllLoop debug (fun s x => s.next x) fuel st c = some st1 ∧
-      Inv lo hi (g.freeSet l2) st1 ∧ (l1 ++ [c]) ∈ (g.freeSet l2).lists
-  | 0, g, st, l1, l2, hI, hmem, hlen => by
+      J (g.freeSet l2) st1 ∧ (l1 ++ [c]) ∈ (g.freeSet l2).lists
+  | 0, g, st, l1, l2, hJg, hmem, hlen => by
     have : l2 = [] := List.eq_nil_of_length_eq_zero (Nat.le_zero.1 hlen)
     subst this
-    exact ⟨st, rfl, by rw [G.freeSet_nil]; exact hI, by rw [G.freeSet_nil]; exact hmem⟩
-  | fuel + 1, g, st, l1, l2, hI, hmem, hlen => by
+    exact ⟨st, rfl, by rw [G.freeSet_nil]; exact hJg, by rw [G.freeSet_nil]; exact hmem⟩
+  | fuel + 1, g, st, l1, l2, hJg, hmem, hlen => by
+    have hI := hJ.inv hJg
     have hlk := hI.links_exact.2.2.1 _ hmem
     have hnext : st.next c = l2.headD 0 := (Linked.suffix hlk).2.1
     cases l2 with
     | nil =>
-      refine ⟨st, ?_, by rw [G.freeSet_nil]; exact hI, by rw [G.freeSet_nil]; exact hmem⟩
+      refine ⟨st, ?_, by rw [G.freeSet_nil]; exact hJg, by rw [G.freeSet_nil]; exact hmem⟩
       rw [freeAllLoop]; simp [hnext]
     | cons b t2 =>
       have hbf : b ∈ g.lists.flatten := List.mem_flatten.2 ⟨_, hmem, by simp⟩
@@ -559,7 +567,7 @@ theorem freeAll_next_loop {lo hi c : Nat} {debug : Bool} : ∀ (fuel : Nat) {g :
       obtain ⟨rb, hrb, hrbs⟩ := (hI.links_exact.2.1 b).1 hbf
       subst hrbs
       obtain ⟨st', n, hfree⟩ := freeNoLock_isSome hI hrb debug
-      have hI' := (inv_free hI hrb hfree).2
+      have hI' := hJ.free hJg hrb hfree
       have hnd := nodup_of_mem_flatten hI.links_exact.1 hmem
       have hmem' : l1 ++ c :: t2 ∈ (g.free rb.start).lists := by
         rw [G.free_lists, List.mem_map]
@@ -567,7 +575,7 @@ theorem freeAll_next_loop {lo hi c : Nat} {debug : Bool} : ∀ (fuel : Nat) {g :
         have e : l1 ++ c :: rb.start :: t2 = (l1 ++ [c]) ++ rb.start :: t2 := by simp
         rw [e] at hnd ⊢
         rw [filter_ne_of_nodup hnd]; simp
-      obtain ⟨st1, h1, hI1, hm1⟩ := freeAll_next_loop (debug := debug) fuel l1 t2 hI' hmem'
+      obtain ⟨st1, h1, hI1, hm1⟩ := freeAll_next_loop hJ fuel l1 t2 hI' hmem'
         (by simpa using hlen)
       rw [G.free, G.freeSet_freeSet] at hI1 hm1
       refine ⟨st1, ?_, hI1, hm1⟩
@@ -576,22 +584,23 @@ theorem freeAll_next_loop {lo hi c : Nat} {debug : Bool} : ∀ (fuel : Nat) {g :
       exact h1
 
 /-- Second loop of `free_all_chunks(c)`: it frees the regions before `c` in `c`'s list (nearest first). -/
-theorem freeAll_prev_loop {lo hi c : Nat} {debug : Bool} : ∀ (fuel : Nat) {g : G} {st : St} (l1r l2 : List Nat),
-    Inv lo hi g st → (l1r.reverse ++ c :: l2) ∈ g.lists → l1r.length ≤ fuel →
+theorem freeAll_prev_loop {lo hi c : Nat} {debug : Bool} {J : G → St → Prop} (hJ : FreeStable lo hi debug J) : ∀ (fuel : Nat) {g : G} {st : St} (l1r l2 : List Nat),
+    J g st → (l1r.reverse ++ c :: l2) ∈ g.lists → l1r.length ≤ fuel →
     ∃ st1, freeAllLoop debug (fun s x => s.prev x) fuel st c = some st1 ∧
-      Inv lo hi (g.freeSet l1r) st1 ∧ (c :: l2) ∈ (g.freeSet l1r).lists
-  | 0, g, st, l1r, l2, hI, hmem, hlen => by
+      J (g.freeSet l1r) st1 ∧ (c :: l2) ∈ (g.freeSet l1r).lists
+  | 0, g, st, l1r, l2, hJg, hmem, hlen => by
     have : l1r = [] := List.eq_nil_of_length_eq_zero (Nat.le_zero.1 hlen)
     subst this
-    exact ⟨st, rfl, by rw [G.freeSet_nil]; exact hI, by rw [G.freeSet_nil]; simpa using hmem⟩
-  | fuel + 1, g, st, l1r, l2, hI, hmem, hlen => by
+    exact ⟨st, rfl, by rw [G.freeSet_nil]; exact hJg, by rw [G.freeSet_nil]; simpa using hmem⟩
+  | fuel + 1, g, st, l1r, l2, hJg, hmem, hlen => by
+    have hI := hJ.inv hJg
     have hlk := hI.links_exact.2.2.1 _ hmem
     have hprev : st.prev c = l1r.head?.getD 0 := by
       have := (Linked.suffix hlk).1
       rw [List.getLast?_reverse] at this; exact this
     cases l1r with
     | nil =>
-      refine ⟨st, ?_, by rw [G.freeSet_nil]; exact hI, by rw [G.freeSet_nil]; simpa using hmem⟩
+      refine ⟨st, ?_, by rw [G.freeSet_nil]; exact hJg, by rw [G.freeSet_nil]; simpa using hmem⟩
       rw [freeAllLoop]; simp [hprev]
     | cons b t1 =>
       have hbf : b ∈ g.lists.flatten := List.mem_flatten.2 ⟨_, hmem, by simp⟩
@@ -599,7 +608,7 @@ theorem freeAll_prev_loop {lo hi c : Nat} {debug : Bool} : ∀ (fuel : Nat) {g :
       obtain ⟨rb, hrb, hrbs⟩ := (hI.links_exact.2.1 b).1 hbf
       subst hrbs
       obtain ⟨st', n, hfree⟩ := freeNoLock_isSome hI hrb debug
-      have hI' := (inv_free hI hrb hfree).2
+      have hI' := hJ.free hJg hrb hfree
       have hnd := nodup_of_mem_flatten hI.links_exact.1 hmem
       have hmem' : t1.reverse ++ c :: l2 ∈ (g.free rb.start).lists := by
         rw [G.free_lists, List.mem_map]
@@ -607,7 +616,7 @@ theorem freeAll_prev_loop {lo hi c : Nat} {debug : Bool} : ∀ (fuel : Nat) {g :
         have e : (rb.start :: t1).reverse ++ c :: l2 = t1.reverse ++ rb.start :: (c :: l2) := by simp
         rw [e] at hnd ⊢
         rw [filter_ne_of_nodup hnd]
-      obtain ⟨st1, h1, hI1, hm1⟩ := freeAll_prev_loop (debug := debug) fuel t1 l2 hI' hmem'
+      obtain ⟨st1, h1, hI1, hm1⟩ := freeAll_prev_loop hJ fuel t1 l2 hI' hmem'
         (by simpa using hlen)
       rw [G.free, G.freeSet_freeSet] at hI1 hm1
       refine ⟨st1, ?_, hI1, hm1⟩
@@ -645,26 +654,28 @@ theorem G.freeAll_zero {lo hi : Nat} {g : G} {st : St} (hI : Inv lo hi g st) : g
 
 /-- `free_all_chunks(c)` (`c = 0`, or `c` in a list of at most `fuel + 1` regions) does not hit an
 assertion and re-establishes the invariant for the bookkeeping without the whole list of `c`. -/
-theorem freeAll_spec {lo hi : Nat} {g : G} {st : St} (hI : Inv lo hi g st) {debug : Bool} {c fuel : Nat}
+theorem freeAll_spec_gen {lo hi : Nat} {debug : Bool} {J : G → St → Prop} (hJ : FreeStable lo hi debug J)
+    {g : G} {st : St} (hJg : J g st) {c fuel : Nat}
     (hc : c = 0 ∨ ∃ l ∈ g.lists, c ∈ l ∧ l.length ≤ fuel + 1) :
-    ∃ st', freeAll debug st c fuel = some st' ∧ Inv lo hi (g.freeAll c) st' := by
+    ∃ st', freeAll debug st c fuel = some st' ∧ J (g.freeAll c) st' := by
+  have hI := hJ.inv hJg
   by_cases hc0 : c = 0
   · subst hc0
-    exact ⟨st, by simp [freeAll], by rw [G.freeAll_zero hI]; exact hI⟩
+    exact ⟨st, by simp [freeAll], by rw [G.freeAll_zero hI]; exact hJg⟩
   rcases hc with e | ⟨l, hl, hcl, hlen⟩
   · exact absurd e hc0
   obtain ⟨l1, l2, rfl⟩ := List.append_of_mem hcl
   have hlen' : l1.length + l2.length ≤ fuel := by
     simp only [List.length_append, List.length_cons] at hlen; omega
-  obtain ⟨st1, h1, hI1, hm1⟩ := freeAll_next_loop (debug := debug) fuel l1 l2 hI hl (by omega)
-  obtain ⟨st2, h2, hI2, hm2⟩ := freeAll_prev_loop (debug := debug) fuel l1.reverse [] hI1
+  obtain ⟨st1, h1, hI1, hm1⟩ := freeAll_next_loop hJ fuel l1 l2 hJg hl (by omega)
+  obtain ⟨st2, h2, hI2, hm2⟩ := freeAll_prev_loop hJ fuel l1.reverse [] hI1
     (by rw [List.reverse_reverse]; exact hm1) (by rw [List.length_reverse]; omega)
   have hcf : c ∈ ((g.freeSet l2).freeSet l1.reverse).lists.flatten :=
     List.mem_flatten.2 ⟨_, hm2, List.mem_cons_self ..⟩
-  obtain ⟨rc, hrc, hrcs⟩ := (hI2.links_exact.2.1 c).1 hcf
+  obtain ⟨rc, hrc, hrcs⟩ := ((hJ.inv hI2).links_exact.2.1 c).1 hcf
   subst hrcs
-  obtain ⟨st3, n, h3⟩ := freeNoLock_isSome hI2 hrc debug
-  have hI3 := (inv_free hI2 hrc h3).2
+  obtain ⟨st3, n, h3⟩ := freeNoLock_isSome (hJ.inv hI2) hrc debug
+  have hI3 := hJ.free hI2 hrc h3
   refine ⟨st3, ?_, ?_⟩
   · unfold freeAll
     have : (rc.start == 0) = false := by simpa using hc0
@@ -683,6 +694,14 @@ theorem freeAll_spec {lo hi : Nat} {g : G} {st : St} (hI : Inv lo hi g st) {debu
         · exact Or.inr (Or.inr h)
         · exact Or.inl h
         · exact Or.inr (Or.inl h)
+
+theorem inv_freeStable (lo hi : Nat) (debug : Bool) : FreeStable lo hi debug (Inv lo hi) :=
+  ⟨fun h => h, fun h hr hf => (inv_free h hr hf).2⟩
+
+theorem freeAll_spec {lo hi : Nat} {g : G} {st : St} (hI : Inv lo hi g st) {debug : Bool} {c fuel : Nat}
+    (hc : c = 0 ∨ ∃ l ∈ g.lists, c ∈ l ∧ l.length ≤ fuel + 1) :
+    ∃ st', freeAll debug st c fuel = some st' ∧ Inv lo hi (g.freeAll c) st' :=
+  freeAll_spec_gen (inv_freeStable lo hi debug) hI hc
 
 /-- **Preservation by `free_all_chunks(c)`**. -/
 theorem inv_freeAll {lo hi : Nat} {g : G} {st : St} (hI : Inv lo hi g st) {debug : Bool} {c fuel : Nat}
